@@ -501,38 +501,25 @@ func c04Insert(r *Run, m *ServerModel, hinfo map[*FuncInfo]*HandlerInfo) {
 		root := cs.Root
 		res := m.resolver(root)
 		key := fmt.Sprintf("%s: InsertFID(%s, %s)", root.Key, res.str(cs.Call.Args[0]), r.L.str(cs.Call.Args[1]))
-		// (i) every error variable assigned from an effectful call that may have run is known nil.
+		// (i) on every path to it, the error of every effectful call that ran has been tested
+		// and found nil (a forward analysis: an error result is pending from the call until a
+		// condition establishes that it is nil; paths that return the error leave).
+		effectful := func(k string) bool {
+			return strings.HasPrefix(k, "p9.File.") || k == "p9.Attacher.Attach" || k == "p9.doWalk" || k == "p9.walkOne"
+		}
 		var unchecked []string
-		ast.Inspect(root.Decl.Body, func(nd ast.Node) bool {
-			as, ok := nd.(*ast.AssignStmt)
-			if !ok || len(as.Rhs) != 1 {
-				return true
-			}
-			call, ok := unparen(as.Rhs[0]).(*ast.CallExpr)
-			if !ok {
-				return true
-			}
-			k := calleeKey(info, call)
-			if !(strings.HasPrefix(k, "p9.File.") || k == "p9.Attacher.Attach" || k == "p9.doWalk" || k == "p9.walkOne") {
-				return true
-			}
-			if !cs.St.May[k] || as.Pos() > cs.Call.Pos() {
-				return true
-			}
-			last := as.Lhs[len(as.Lhs)-1]
-			obj := objOf(info, last)
-			if obj == nil || !isErrorType(obj.Type()) {
-				return true
-			}
+		pend, seen := pendingErrors(m, root, effectful, cs.Call)
+		if !seen {
+			unchecked = append(unchecked, "the call site was not reached by the analysis")
+		}
+		for obj, k := range pend {
 			name := obj.Name()
 			if u, ok := res.uniq[obj]; ok {
 				name = u
 			}
-			if !cs.St.holds(name+" == nil", true) && !cs.St.holds(res.str(call)+" == nil", true) {
-				unchecked = append(unchecked, fmt.Sprintf("%s (error %s)", k, name))
-			}
-			return true
-		})
+			unchecked = append(unchecked, fmt.Sprintf("%s (error %s)", k, name))
+		}
+		sort.Strings(unchecked)
 		if len(unchecked) > 0 {
 			r.fail("r3", key, cs.Call.Pos(), "InsertFID is reachable although %v may have failed: a fid must be bound only when the request succeeds", dedupe(unchecked))
 		} else {
@@ -796,4 +783,135 @@ func withUnmaskedAlternatives(g Guard) Guard {
 		out.Lits = append(out.Lits, nl)
 	}
 	return out
+}
+
+// pendingErrors: the error results of calls selected by effectful that, on some path to the
+// node containing target, have been assigned and not (yet) established to be nil.
+func pendingErrors(m *ServerModel, root *FuncInfo, effectful func(key string) bool, target ast.Node) (map[types.Object]string, bool) {
+	info := root.Pkg.TypesInfo
+	type pset = map[types.Object]string
+	cp := func(a pset) pset {
+		o := pset{}
+		for k, v := range a {
+			o[k] = v
+		}
+		return o
+	}
+	a := &Analysis[pset]{L: m.L, Info: info, Wrappers: m.DB.Wrappers, Inline: inlinePolicy[pset](m.DB, root),
+		Join: func(x, y pset) pset {
+			o := cp(x)
+			for k, v := range y {
+				o[k] = v
+			}
+			return o
+		},
+		Equal: func(x, y pset) bool {
+			if len(x) != len(y) {
+				return false
+			}
+			for k := range x {
+				if _, ok := y[k]; !ok {
+					return false
+				}
+			}
+			return true
+		},
+		Copy: cp,
+	}
+	a.Stmt = func(s pset, n ast.Node, fc *FlowCtx[pset]) pset {
+		as, ok := n.(*ast.AssignStmt)
+		if !ok {
+			return s
+		}
+		for _, l := range as.Lhs {
+			if obj := objOf(info, l); obj != nil {
+				delete(s, obj) // overwritten
+			}
+		}
+		if len(as.Rhs) == 1 {
+			if call, ok := unparen(as.Rhs[0]).(*ast.CallExpr); ok {
+				if k := calleeKey(info, call); effectful(k) {
+					if obj := objOf(info, as.Lhs[len(as.Lhs)-1]); obj != nil && isErrorType(obj.Type()) {
+						s[obj] = k
+					}
+				}
+			}
+		}
+		return s
+	}
+	// nilOn lists the variables that cond == branch establishes to be nil.
+	var nilOn func(cond ast.Expr, branch bool) []types.Object
+	nilOn = func(cond ast.Expr, branch bool) []types.Object {
+		cond = unparen(cond)
+		if u, ok := cond.(*ast.UnaryExpr); ok && u.Op == token.NOT {
+			return nilOn(u.X, !branch)
+		}
+		be, ok := cond.(*ast.BinaryExpr)
+		if !ok {
+			return nil
+		}
+		switch be.Op {
+		case token.LAND, token.LOR:
+			if (be.Op == token.LAND) == branch {
+				return append(nilOn(be.X, branch), nilOn(be.Y, branch)...)
+			}
+			// decided by either operand: only what both establish
+			var out []types.Object
+			ys := nilOn(be.Y, branch)
+			for _, x := range nilOn(be.X, branch) {
+				for _, y := range ys {
+					if x == y {
+						out = append(out, x)
+					}
+				}
+			}
+			return out
+		case token.EQL, token.NEQ:
+			x, y := unparen(be.X), unparen(be.Y)
+			if isNilIdent(info, x) {
+				x, y = y, x
+			}
+			if !isNilIdent(info, y) || (be.Op == token.EQL) != branch {
+				return nil
+			}
+			if obj := objOf(info, x); obj != nil {
+				return []types.Object{obj}
+			}
+		}
+		return nil
+	}
+	a.Cond = func(s pset, cond ast.Expr, branch bool, fc *FlowCtx[pset]) pset {
+		for _, obj := range nilOn(cond, branch) {
+			delete(s, obj)
+		}
+		return s
+	}
+	var out pset
+	seen := false
+	a.Visit = func(s pset, n ast.Node, fc *FlowCtx[pset]) {
+		switch n.(type) {
+		case *ast.BlockStmt, *ast.IfStmt, *ast.ForStmt, *ast.RangeStmt, *ast.SwitchStmt, *ast.TypeSwitchStmt, *ast.SelectStmt, *ast.CaseClause, *ast.CommClause, *ast.LabeledStmt:
+			return
+		}
+		inside := false // the target is part of this node itself, not of a literal written in it
+		inspectNoLit(n, func(x ast.Node) {
+			if x == target {
+				inside = true
+			}
+		})
+		if !inside {
+			return
+		}
+		if !seen {
+			out, seen = pset{}, true
+		}
+		for k, v := range s {
+			if fc.Nil[k] == isNil {
+				continue // the engine knows it is nil here (e.g. returned by a closure whose result was tested)
+			}
+			out[k] = v
+		}
+	}
+	a.Run(root.Decl, pset{})
+	return out, seen
 }
